@@ -536,13 +536,18 @@ def suite(tier, seed):
         if os.path.exists(cp):
             return json.load(open(cp))
         t0 = time.time()
-        build_harness()
-        res = {"engine": "incr", "mc": mc(tier), "tier": tier, "seed": seed, "violations": [], "tool_errors": [], "runs": 0,
+        harness_ok = True
+        try:
+            build_harness()
+        except ToolError as e:
+            harness_ok = False
+            log("incremental suite: harness does not build against this tree - real-binary leg only:", str(e)[-400:])
+        res = {"engine": "incr", "harness_built": harness_ok, "mc": mc(tier), "tier": tier, "seed": seed, "violations": [], "tool_errors": [], "runs": 0,
                "traces_validated": 0, "events": 0, "samples": [], "nontrivial": {}}
-        hs = make_histories(tier, seed)
+        hs = make_histories(tier, seed) if harness_ok else []
         byid = {h["id"]: h for h in hs}
         k = NCPU
-        shards = [("i%s%d_%d_%d" % (tier[0], seed, os.getpid(), s), hs[s::k]) for s in range(k)]
+        shards = [("i%s%d_%d_%d" % (tier[0], seed, os.getpid(), s), hs[s::k]) for s in range(k) if hs[s::k]]
         with cf.ThreadPoolExecutor(NCPU) as ex:
             rs = list(ex.map(run_shard, shards))
         seen = {p: set() for p in PROPS}
